@@ -130,16 +130,15 @@ class DocModel(Comp):
         return out
 
     def witness(self, line, model_out, impl_out):
-        """the only disagreement a faithful model may have with the implementation: the READERS on libyang's JSON output
-        in trim mode (the printed bytes agree): the array / first_leaflist bookkeeping of printer_json.c counts leaf-list
-        instances that were not printed (finding json-trim-leaflist-meta)"""
+        """a byte difference whose two documents MEAN different things to an independent reader is a failure of the
+        property itself, not only of the correspondence. (The former listed disagreement - the readers on libyang's JSON
+        output in trim mode, finding json-trim-leaflist-meta - is fixed by f592167 and modelled: nothing is excused.)"""
         if " | end:" not in impl_out:
             return None
         m = model_out.split(" | ")
         o = self.norm(line, impl_out).split(" | ")
         if len(m) != len(o):
             return None
-        bad = []
         for a, b in zip(m, o):
             if a == b:
                 continue
@@ -151,10 +150,6 @@ class DocModel(Comp):
                 # about)? Then the property itself fails on this input, not only the correspondence
                 w = self.meaning_differs(pa[0][0], unhex(pa[1]), unhex(pb[1]))
                 return (None, "option set %s: %s" % (pa[0], w)) if w else None
-            bad.append(pa[0])
-        if bad and all(x == "j%d" % (BASE | WD_TRIM) for x in bad):
-            return ("json-trim-leaflist-meta", "JSON printed in with-defaults trim mode does not parse back to the trimmed "
-                    "tree: metadata array of a leaf-list misaligned / misplaced")
         return None
 
 
@@ -211,6 +206,13 @@ FIXED_YANG = """module m1 { yang-version 1.1; namespace "urn:verif:m1"; prefix m
   leaf s { type string; }
   leaf t { type string; }
   anydata ad; anyxml ax;
+}"""
+
+TRIM_YANG = """module m1 { yang-version 1.1; namespace "urn:verif:m1"; prefix m1;
+  import ietf-yang-metadata { prefix md; }
+  md:annotation note { type string; }
+  leaf-list ll { type int8; default -5; default -7; }
+  container c { leaf x { type string; } leaf n { type int8; } }
 }"""
 
 # names that are prefixes of each other, in several namespaces
@@ -311,9 +313,9 @@ class JsonX:
         if depth < 2 and r < 0.25:
             ms = [self.extra(depth + 1, False) for _ in range(rng.randrange(1, 4))]
             if rng.random() < 0.3:
-                # (an attribute of the node's own module loses its module name in the output: finding
-                # json-opaq-attr-unqualified; an unqualified unknown member belongs to the module of its parent)
-                am = "m1:note" if (name.startswith("unk:") or rng.random() < 0.1) else "other:at"
+                # (an attribute of the node's own module lost its module name in the output: former finding
+                # json-opaq-attr-unqualified, 9a1019b; an unqualified unknown member belongs to the module of its parent)
+                am = "m1:note" if (name.startswith("unk:") or rng.random() < 0.5) else "other:at"
                 ms.insert(0, ('@', '{"%s":%s}' % (am, _js(xval(rng)))))
             return (name, "{" + ",".join('%s:%s' % (_js(k), v) for k, v in dedup(ms)) + "}")
         if depth < 2 and r < 0.4:
@@ -529,11 +531,60 @@ class RoundTripX(Oracle):
         # E: operations
         for i in range(self.n(tier, 150, 1500, scale)):
             L += self.op_cases(rng, i)
+        # R: the witnesses of the fixed findings of this slice (known_findings.d/doc.json), as regression cases
+        L += self.regress_cases()
         # F: values around the LYB chunk limit
         lens = list(range(65500, 65545)) if tier != "thorough" else list(range(65400, 65600)) + [131040 + d for d in range(-40, 41)]
         for ln in lens:
             for depth in range(4):
                 L.append(self.big_case(rng, ln, depth))
+        return L
+
+    # ---- R ---------------------------------------------------------------------------------------
+    REGRESS_MA = ('module ma { yang-version 1.1; namespace "urn:a"; prefix p; import ietf-yang-metadata { prefix md; } '
+                  'md:annotation x { type string; } leaf l { type string; } }')
+    REGRESS_MB = ('module mb { yang-version 1.1; namespace "urn:b"; prefix p; import ietf-yang-metadata { prefix md; } '
+                  'md:annotation y { type string; } }')
+
+    def regress_cases(self):
+        E = "E"
+        jx = [("d", "j", SIB | PRINT_SHRINK, E), ("d", "j", SIB, E), ("d", "x", SIB | PRINT_SHRINK, E), ("d", "b", SIB, E)]
+        L = []
+
+        def parsed(fmt, data, checks, mods=(FIXED_YANG,)):
+            s = Script()
+            s.ctx()
+            for m in mods:
+                s.mod(m)
+            s.parse(0, fmt, data, popts=OPQ, vopts=0)
+            L.append(self.finish(s, 2 + len(mods), checks, "regress"))
+
+        # xml-meta-prefix-clash (91f0178): two modules with one prefix put metadata on one node
+        parsed("j", '{"ma:l":"v","@ma:l":{"ma:x":"1","mb:y":"2"}}',
+               [("d", "x", SIB | PRINT_SHRINK, E), ("d", "x", SIB, E), ("d", "j", SIB | PRINT_SHRINK, E), ("d", "b", SIB, E)],
+               mods=(self.REGRESS_MA, self.REGRESS_MB))
+        # json-opaq-attr-unqualified (9a1019b): attribute of the opaque node's own module
+        parsed("j", '{"m1:c":{"n":"bad","@n":{"m1:note":"x"}}}', jx)
+        # json-opaq-mixed-array / json-opaq-list-value-lost (1f33653): equally named opaque siblings with and without children
+        parsed("x", '<sx xmlns="urn:verif:m1">a</sx><sx xmlns="urn:verif:m1">b</sx><sx xmlns="urn:verif:m1"><y/></sx>', jx)
+        parsed("x", '<c xmlns="urn:verif:m1"><sx/><sx>v</sx></c>', jx)
+        parsed("x", '<c xmlns="urn:verif:m1"><sx><y>1</y></sx><sx>v</sx><sx/><sx><y>2</y></sx></c>', jx)
+        # e077458: an opaque node inside an equally named opaque node
+        parsed("x", '<sx xmlns="urn:verif:m1"><sx>v</sx><sx>w</sx></sx><sx xmlns="urn:verif:m1"><sx><sx/></sx></sx>', jx)
+        # json-anydata-nested-same-list (e077458): a data tree in the anydata of an instance of the list it contains
+        s = Script()
+        s.ctx()
+        s.mod(FIXED_YANG)
+        s.add("newpath", "t0", "c0", 0, hexs("/m1:c/l[k='a']/v"), hexs("vv"))
+        s.add("xany", "t0#1", "c0", "m1", "lad", "t",
+              hexs('<c xmlns="urn:verif:m1"><known>k</known><l><k>a</k><v>1</v></l><l><k>b</k></l></c>'))
+        L.append(self.finish(s, 4, jx, "regress"))
+        # json-anydata-unqualified (85d6827): top-level nodes of the anydata content carry their module name
+        s = Script()
+        s.ctx()
+        s.mod(FIXED_YANG)
+        s.add("xany", "t0", "c0", "m1", "ad", "t", hexs('<top xmlns="urn:verif:m1">inner</top>'))
+        L.append(self.finish(s, 3, jx, "regress"))
         return L
 
     # ---- C ---------------------------------------------------------------------------------------
@@ -608,9 +659,9 @@ class RoundTripX(Oracle):
                     s.add("xopaq", "t0#%d" % idx, "c0", "ch", hexs("v"), "~", q)
                     setup += 1
                     self.node_at(tree, path)[1].append(["ch", []])
-                    # an attribute of the node's own module is printed without the module name (finding
-                    # json-opaq-attr-unqualified, reported through the error class): mostly another module
-                    am = q if rng.random() < 0.15 else rng.choice([x for x in ("m1", "other", "unk") if x != q])
+                    # an attribute of the node's own module (printed without the module name before 9a1019b: former
+                    # finding json-opaq-attr-unqualified) or of another one
+                    am = q if rng.random() < 0.5 else rng.choice([x for x in ("m1", "other", "unk") if x != q])
                     s.add("xattr", "t0#%d" % idx, am, rng.choice(["note", "at"]), hexs(xval(rng) or "v"))
                 setup += 1
         fm = "x" if xml else "j"
@@ -643,7 +694,7 @@ class RoundTripX(Oracle):
             s.parse(0, "x", '<top xmlns="urn:verif:m1">a</top><%s xmlns="urn:verif:m1">%s</%s>' % (nm, inner, nm), popts=OPQ, vopts=0)
             setup += 1
             checks = [("d", "x", SIB | PRINT_SHRINK, E), ("d", "x", SIB, E), ("d", "b", SIB, E),
-                      ("d", "j", SIB | PRINT_SHRINK, "K:json-anydata-unqualified")]
+                      ("d", "j", SIB | PRINT_SHRINK, E), ("d", "j", SIB, E)]
             return self.finish(s, setup, checks, "any-parsed")
         if where == "top":
             target, name = "t0", rng.choice(["ad", "ax"]) if kind == "t" else "ax"
@@ -660,7 +711,7 @@ class RoundTripX(Oracle):
         if kind == "t":
             s.add("xany", target, "c0", "m1", name, "t", hexs(inner))
             checks = [("d", "x", SIB | PRINT_SHRINK, E), ("d", "x", SIB, E), ("d", "b", SIB, E),
-                      ("d", "j", SIB | PRINT_SHRINK, "K:json-anydata-unqualified")]
+                      ("d", "j", SIB | PRINT_SHRINK, E), ("d", "j", SIB, E)]
         elif kind == "s":
             s.add("xany", target, "c0", "m1", name, "s", hexs(xval(rng) or "str"))
             checks = [("d", "x", SIB | PRINT_SHRINK, E), ("d", "x", SIB, E), ("d", "j", SIB | PRINT_SHRINK, E), ("d", "j", SIB, E),
@@ -775,41 +826,17 @@ class RoundTripX(Oracle):
             ok = (rc(rt) == 0 and cmp_ == "0:0" and (exp == "C" or dmp == base))
             if ok:
                 continue
-            tag = exp[2:] if exp.startswith("K:") else None
-            # listed findings of the JSON printer / parser, recognised by their narrow signature
+            tag = None
+            # the one listed finding left (not of this slice), recognised by its narrow signature; the seven findings of the
+            # JSON / XML printers this oracle used to list are fixed (known_findings.d/doc.json) and fail like anything else
             if kf[1] == "b" and rt.startswith("P"):
                 tag = "lyb-hash-collision"            # the LYB printer gives up on colliding sibling hashes (as in RoundTrip)
-            elif kf[1] == "j" and rc(rt) != 0 and "metadata-in-json-must-be-namespace-qualified" in rt:
-                tag = "json-opaq-attr-unqualified"
-            elif kf[1] == "j" and family == "opaq-xml" and rc(rt) != 0 and "invalid-character-sequence" in rt:
-                tag = "json-opaq-mixed-array"
-            elif kf[1] == "j" and family == "opaq-xml" and rc(rt) == 0 and value_lost_only(base, dmp):
-                tag = "json-opaq-list-value-lost"
-            elif kf[1] == "j" and family.startswith("any-") and rc(rt) != 0 and "invalid-character-sequence" in rt:
-                tag = "json-anydata-nested-same-list"
             if rc(rt) != 0:
                 return (tag, "print / parse back failed (%s): %s" % (what, rt))
             if exp != "C" and dmp != base:
                 return (tag, "re-parsed tree differs (%s, dump): %s" % (what, diff_hint(base, dmp)))
             return (tag, "re-parsed tree differs (%s): compare:metadata = %s" % (what, cmp_))
         return None
-
-
-def value_lost_only(a, b):
-    """b is a with the value of some opaque nodes dropped (entry ...:o<hex> -> ...:o-) and nothing else changed"""
-    x, y = a.split(";"), b.split(";")
-    if len(x) != len(y):
-        return False
-    lost = 0
-    for p, q in zip(x, y):
-        if p == q:
-            continue
-        pp, qq = p.split(":"), q.split(":")
-        if len(pp) >= 4 and pp[:3] == qq[:3] and pp[3].startswith("o") and qq[3] == "o-" and pp[4:] == qq[4:]:
-            lost += 1
-        else:
-            return False
-    return lost > 0
 
 
 def diff_hint(a, b):
@@ -872,12 +899,25 @@ class WellFormedX(Oracle):
             cmds = f[2:2 + nsetup]
             po = 0 if fam.startswith("op-") else SIB
             node = "t0"
-            # opaque nodes of namespaces the context does not know cannot be named in JSON at all (and the array bookkeeping of
-            # json_print_opaq() for them runs into an assertion: see the report); JSON is printed where RoundTripX checks it
-            fj = "j" if (fam != "opaq-xml" or "dj/" in hdr[3]) else "x"
+            # (opaque nodes of namespaces the context does not know cannot be named in JSON, but what is printed must still
+            # be JSON: matching_node() ran into an assertion there before 2c539f8)
+            fj = "j"
             L.append("doc\t#w %s %d %s\t" % (fam, nsetup, fj) +
                      "\t".join(cmds + ["print %s x %d" % (node, po | PRINT_SHRINK), "print %s x %d" % (node, po),
                                        "print %s %s %d" % (node, fj, po | PRINT_SHRINK), "print %s %s %d" % (node, fj, po)]))
+        # json-trim-leaflist-meta (f592167): trim mode drops an instance of a leaf-list that carries metadata
+        for data in ('<ll xmlns="urn:verif:m1" xmlns:m1="urn:verif:m1" m1:note="N">-9</ll><ll xmlns="urn:verif:m1">-7</ll>'
+                     '<c xmlns="urn:verif:m1"><x>a</x></c>',
+                     '<ll xmlns="urn:verif:m1">-5</ll><ll xmlns="urn:verif:m1">16</ll>'
+                     '<ll xmlns="urn:verif:m1" xmlns:m1="urn:verif:m1" m1:note="N">90</ll><c xmlns="urn:verif:m1"><x>a</x></c>'):
+            s = Script()
+            s.ctx()
+            s.mod(TRIM_YANG)
+            s.parse(0, "x", data, popts=PARSE_ONLY, vopts=0)
+            po = SIB | WD_TRIM
+            L.append("doc\t#w regress-trim 3 j\t" +
+                     "\t".join(s.cmds + ["print t0 x %d" % (po | PRINT_SHRINK), "print t0 x %d" % po,
+                                         "print t0 j %d" % (po | PRINT_SHRINK), "print t0 j %d" % po]))
         return L
 
     def judge(self, line, out):
@@ -906,10 +946,5 @@ class WellFormedX(Oracle):
                 try:
                     json.loads(data.decode("utf-8"))
                 except (ValueError, UnicodeDecodeError) as e:
-                    tag = None
-                    if fam in ("opaq-xml",) and (b",," in data or b":," in data):
-                        tag = "json-opaq-mixed-array"
-                    elif fam.startswith("any-"):
-                        tag = "json-anydata-nested-same-list"
-                    return (tag, "printed JSON is not RFC 8259 JSON (%s): %s: %r" % (fam, e, data[:200]))
+                    return (None, "printed JSON is not RFC 8259 JSON (%s): %s: %r" % (fam, e, data[:200]))
         return None
